@@ -197,6 +197,7 @@ POOL = (
     + [("INT", s) for s in ["0", "1", "7", "-1", "+3"]]
     + [("NUMBER", s) for s in ["0.5", "-1.5e-3", "2.0"]]
     + [("BININT", "'01'"), ("BININT", "'1'")]
+    + [("ILLEGAL", "@"), ("ILLEGAL", "٢"), ("ILLEGAL", "２5"), ("ILLEGAL", "$x")]
 )
 
 
@@ -288,7 +289,10 @@ def _render_positions(toks):
 def _value_tokens(toks):
     out = []
     for k, s in toks:
-        out.append(refgrammar.classify(s) if k not in ("NL",) else ("NL", "\n"))
+        if k == "ILLEGAL":
+            out.append(("ILLEGAL", s))  # no terminal of the grammar: the recognizer stops here
+        else:
+            out.append(refgrammar.classify(s) if k not in ("NL",) else ("NL", "\n"))
     return out
 
 
